@@ -14,6 +14,8 @@ MAP = [  # (substring of the commit subject, property)
  ("None return value of complex type", "C02"), ("ModelBase.to_bytes", "C02"),
  ("null member of complex type", "C02"), ("members of a class used more than once", "C03"),
  ("strict_arrays rejected arrays", "C03"), ("SOAP 1.2 fault whose detail dict", "C09"),
+ ("xsi:type values whose namespace prefix is not bound", "C16"),
+ ("SOAP output dropped the namespace declaration", "C16"),
  ("order of schema types and xs:import", "C07"), ("WSDL header and fault message references", "C07"),
  ("every operation was put into the last wsdl:portType", "C07"),
  ("global element of a header or fault class", "C07"),
